@@ -262,3 +262,48 @@ pub proof fn lemma_cond_ltz(c: Expression, a: int, env: Env)
         assert(eval_spec(c, env) == EvalR::Val(1, bv_cmpeq(bv_cmplts(32, R(env, a), 0), 0)));
     }
 }
+
+/// comparisons of two register reads / a register read and a constant
+pub proof fn lemma_cmp_rr(c: Expression, a: int, b: int, env: Env)
+    requires reads_gpr(lhs_of(c), a), reads_gpr(rhs_of(c), b), 0 <= a < 32, 0 <= b < 32, mips_state(env),
+    ensures
+        c is Cmplts ==> eval_spec(c, env) == EvalR::Val(1, b2n(sval(32, R(env, a)) < sval(32, R(env, b)))),
+        c is Cmpltu ==> eval_spec(c, env) == EvalR::Val(1, b2n(R(env, a) < R(env, b))),
+        c is Cmpeq ==> eval_spec(c, env) == EvalR::Val(1, b2n(R(env, a) == R(env, b))),
+        c is Cmpneq ==> eval_spec(c, env) == EvalR::Val(1, b2n(R(env, a) != R(env, b))),
+{
+    reveal(bv_cmplts); reveal(bv_cmpltu); reveal(bv_cmpeq); reveal(bv_cmpneq);
+    lemma_reads_gpr(lhs_of(c), a, env); lemma_reads_gpr(rhs_of(c), b, env);
+    lemma_R(env, a); lemma_R(env, b);
+}
+pub proof fn lemma_cmp_ri(c: Expression, a: int, v: int, env: Env)
+    requires reads_gpr(lhs_of(c), a), is_const32(rhs_of(c), v), 0 <= a < 32, mips_state(env),
+    ensures
+        c is Cmplts ==> eval_spec(c, env) == EvalR::Val(1, b2n(sval(32, R(env, a)) < sval(32, v as nat))),
+        c is Cmpltu ==> eval_spec(c, env) == EvalR::Val(1, b2n(R(env, a) < v as nat)),
+        c is Cmpeq ==> eval_spec(c, env) == EvalR::Val(1, b2n(R(env, a) == v as nat)),
+        c is Cmpneq ==> eval_spec(c, env) == EvalR::Val(1, b2n(R(env, a) != v as nat)),
+{
+    reveal(bv_cmplts); reveal(bv_cmpltu); reveal(bv_cmpeq); reveal(bv_cmpneq);
+    lemma_reads_gpr(lhs_of(c), a, env); lemma_const32(rhs_of(c), v, env);
+    lemma_R(env, a);
+}
+
+/// division / remainder of two register reads (defined when the divisor is not zero)
+pub proof fn lemma_div_rr(e: Expression, a: int, b: int, env: Env)
+    requires reads_gpr(lhs_of(e), a), reads_gpr(rhs_of(e), b), 0 <= a < 32, 0 <= b < 32, mips_state(env), R(env, b) != 0,
+    ensures
+        e is Divs ==> eval_spec(e, env) == EvalR::Val(32, bv_divs(32, R(env, a), R(env, b))),
+        e is Mods ==> eval_spec(e, env) == EvalR::Val(32, bv_mods(32, R(env, a), R(env, b))),
+        e is Divu ==> eval_spec(e, env) == EvalR::Val(32, bv_divu(32, R(env, a), R(env, b))),
+        e is Modu ==> eval_spec(e, env) == EvalR::Val(32, bv_modu(32, R(env, a), R(env, b))),
+{
+    lemma_reads_gpr(lhs_of(e), a, env); lemma_reads_gpr(rhs_of(e), b, env);
+    lemma_R(env, a); lemma_R(env, b);
+}
+pub proof fn lemma_div_wf(e: Expression, a: int, b: int)
+    requires reads_gpr(lhs_of(e), a), reads_gpr(rhs_of(e), b), 0 <= a < 32, 0 <= b < 32, e is Divs || e is Mods || e is Divu || e is Modu,
+    ensures expr_wf(e), expr_bits(e) == 32,
+{
+    lemma_reads_gpr(lhs_of(e), a, empty_env()); lemma_reads_gpr(rhs_of(e), b, empty_env());
+}
